@@ -94,11 +94,20 @@ class Check:
     def build(self, cmd, race=False):
         """build harness/cmd/<cmd> against /repo's current working tree with the hooks on"""
         out = os.path.join(self.scratch, cmd + ('-race' if race else ''))
+        hdir = HARNESS
+        if os.path.realpath(REPO) != '/repo':
+            # checks normally run against /repo; VERIF_REPO=<worktree> retargets the harness module (used to try seeded changes)
+            hdir = os.path.join(self.scratch, 'harness')
+            if not os.path.exists(hdir):
+                shutil.copytree(HARNESS, hdir)
+                subprocess.run(['go', 'mod', 'edit', '-replace', 'github.com/alibaba/sentinel-golang=' + os.path.realpath(REPO)],
+                               cwd=hdir, env=goenv(), check=True)
+                shutil.copy(os.path.join(REPO, 'go.sum'), os.path.join(hdir, 'go.sum'))
         args = ['go', 'build', '-tags', 'verif', '-o', out]
         if race:
             args.append('-race')
         args.append('./cmd/' + cmd)
-        p = subprocess.run(args, cwd=HARNESS, env=goenv(), stdout=subprocess.PIPE, stderr=subprocess.STDOUT, text=True)
+        p = subprocess.run(args, cwd=hdir, env=goenv(), stdout=subprocess.PIPE, stderr=subprocess.STDOUT, text=True)
         if p.returncode != 0:
             raise MachineryError('harness build failed:\n' + p.stdout[-4000:])
         return out
@@ -201,7 +210,7 @@ class Check:
         return key in self.kf
 
     def save_replay(self, name, lines):
-        d = os.path.join(VERIF, 'replays', self.pid)
+        d = os.path.join(os.environ.get('VERIF_REPLAY_DIR') or os.path.join(VERIF, 'replays'), self.pid)
         os.makedirs(d, exist_ok=True)
         p = os.path.join(d, name)
         with open(p, 'w') as f:
@@ -220,8 +229,9 @@ class Check:
         cov['known_findings_seen'] = sorted(self.known_seen)
         ev = dict(property_id=self.pid, tier=self.tier, seed=self.seed, level=self.level, coverage=cov,
                   assumptions=self.assumptions, wall_s=round(time.time() - self.t0, 1), violations=len(self.violations))
-        os.makedirs(os.path.join(VERIF, 'evidence'), exist_ok=True)
-        with open(os.path.join(VERIF, 'evidence', self.pid + '.json'), 'w') as f:
+        evdir = os.environ.get('VERIF_EVIDENCE_DIR') or os.path.join(VERIF, 'evidence')
+        os.makedirs(evdir, exist_ok=True)
+        with open(os.path.join(evdir, self.pid + '.json'), 'w') as f:
             json.dump(ev, f, indent=1, default=str)
         for key, what in sorted(self.known_seen.items()):
             print('KNOWN-FINDING: property=%s %s [%s]' % (self.pid, what, key))
